@@ -124,6 +124,55 @@ def rule_m6(repo):
     return res
 
 
+def pure_combinators(repo):
+    """methods of ProofTerm / Thm / Term / Type that return a value and never store into self: calling
+    one of them as a statement does nothing"""
+    pure = set()
+    for rel, cls in (('kernel/proofterm.py', 'ProofTerm'), ('kernel/thm.py', 'Thm'), ('kernel/term.py', 'Term'), ('kernel/type.py', 'Type')):
+        c = repo.cls(rel, cls)
+        for name, f in c.methods.items():
+            if name.startswith('__'):
+                continue
+            rets = [n for n in ast.walk(f.node) if isinstance(n, ast.Return) and n.value is not None]
+            stores = [n for n in ast.walk(f.node) if isinstance(n, (ast.Assign, ast.AugAssign)) and any(
+                isinstance(t, (ast.Attribute, ast.Subscript)) and is_name(getattr(t, 'value', None), 'self')
+                for t in (n.targets if isinstance(n, ast.Assign) else [n.target]))]
+            if rets and not stores:
+                pure.add(name)
+    need(len(pure) >= 60, 'fewer than 60 value-returning methods found on ProofTerm / Thm / Term / Type')
+    return pure
+
+
+def rule_m8(repo):
+    """Proof terms, theorems and terms are immutable values: pt.on_rhs(cv) returns the rewritten proof
+    term and leaves pt as it was.  A statement that calls such a method and drops the result is a step of
+    the expansion that does not happen - the expansion then proves something else than the evaluation
+    reports."""
+    res = RuleResult('C04.M8', 'no step of a macro expansion is computed and thrown away: results of proof-term / theorem / term combinators are used', floor=100)
+    pure = pure_combinators(repo)
+    for m in repo.source_modules():
+        if '/tests/' in m.rel:
+            continue
+        bad = []
+        in_try = set()
+        for n in ast.walk(m.tree):
+            if isinstance(n, ast.Try) and n.handlers:
+                for st in n.body:
+                    for x in ast.walk(st):
+                        in_try.add(id(x))
+        for n in ast.walk(m.tree):
+            if isinstance(n, ast.Expr) and isinstance(n.value, ast.Call) and isinstance(n.value.func, ast.Attribute) and \
+                    n.value.func.attr in pure and id(n) not in in_try:
+                bad.append(n)
+        res.add('%s :: results-used' % m.rel, not bad,
+                'no discarded combinator call' if not bad else
+                '; '.join('line %d: the value of `%s` is discarded' % (b.lineno, src(b.value, 60)) for b in bad[:3]) +
+                ' -- the object it is called on is unchanged, so this step of the proof is missing', '%s:%d' % (m.rel, bad[0].lineno if bad else 1),
+                nontrivial=bool(bad))
+    res.info['combinators'] = len(pure)
+    return res
+
+
 def rule_m7(repo):
     """The `auto` macro evaluates through logic.auto.norm / solve, whose process-wide memo tables are keyed by the
     term alone: what is stored must have been obtained without side conditions (the rule of C10.V4)."""
@@ -134,4 +183,4 @@ def rule_m7(repo):
 def rules(repo):
     m1 = mr.hyps_rule(repo, 'C04.M1', mr.all_macros, floor=95)
     m2 = mr.zip_rule(repo, 'C04.M2', mr.macro_eval_functions(repo), floor=4)
-    return [m1, m2, rule_m3(repo), rule_m5(repo), rule_m6(repo), rule_m7(repo)]
+    return [m1, m2, rule_m3(repo), rule_m5(repo), rule_m6(repo), rule_m7(repo), rule_m8(repo)]
